@@ -70,3 +70,13 @@ func VerifT00ArithBug() {
 	nd.Assert(one<<c != 1<<17, "c = 17 expected")
 	nd.Reach("done")
 }
+
+// VerifT00RuneString: string(r) of a symbolic ASCII rune.
+func VerifT00RuneString() {
+	c := nd.Byte("c")
+	nd.Assume(c < 0x80)
+	s := string(rune(c))
+	nd.Assert(len(s) == 1 && s[0] == c, "string(rune) of an ASCII rune is that byte")
+	nd.Assert(s != "q", "c = 113 expected")
+	nd.Reach("done")
+}
